@@ -64,8 +64,12 @@ def check_eject_step(n, flags, hs, pooling, cee):
     it = MoleculeIterator(src, molecule_class=SMol, fragment_class=SFrag, check_eject_every=cee,
                           perform_qflag=False, pooling_method=pooling)
     emitted = []  # (idx, consumed at emission, exhausted)
-    for m in it:
-        emitted.append((m.idx, src.consumed, src.exhausted, m.finalised))
+    try:
+        for m in it:
+            emitted.append((m.idx, src.consumed, src.exhausted, m.finalised))
+    except Exception:
+        # the iterator aborted (e.g. IndexError in the pop arithmetic): the remaining fragments are never emitted
+        return 'iterator_raised'
     idxs = [e[0] for e in emitted]
     if sorted(idxs) != list(range(n)):
         return 'each_once'
